@@ -104,6 +104,9 @@ func TestProbeHostile(t *testing.T) {
 			if seen[sig] == 1 {
 				_, line := problemLine(po, p)
 				fmt.Printf("NEW %s\n   %s\n   line: %s\n   classes: %v\n   flags: %s\n", sig, p.Msg, line, s.Classes(), f)
+				if want := os.Getenv("VERIF_PROBE_DUMP"); want != "" && strings.Contains(p.String(), want) {
+					os.WriteFile(fmt.Sprintf("/verif/.out/cg2-probe/case-%d.txt", len(seen)), []byte(p.String()+"\n"+po.Cmd+"\n"+s.Key()+"\n"+dumpOutput(po, 100000)), 0o644)
+				}
 			}
 		}
 	})
